@@ -3,6 +3,7 @@ use crate::engine::{Case, Ctx, Verdict};
 use crate::refm::eval::RefOutcome;
 use crate::subject::{MachineryError, Outcome};
 
+pub mod c01;
 pub mod c02;
 pub mod c04;
 pub mod c05;
@@ -27,6 +28,7 @@ pub trait Check: Sync {
 
 pub fn get(id: &str) -> Option<Box<dyn Check>> {
     match id {
+        "C01" => Some(Box::new(c01::C01)),
         "C02" => Some(Box::new(c02::C02)),
         "C04" => Some(Box::new(c04::C04)),
         "C05" => Some(Box::new(c05::C05)),
@@ -46,7 +48,7 @@ pub fn get(id: &str) -> Option<Box<dyn Check>> {
 }
 
 pub fn all_ids() -> Vec<&'static str> {
-    vec!["C02", "C04", "C05", "C06", "C07", "C08", "C10", "C11", "C12", "C13", "C14", "C15", "C16", "C20"]
+    vec!["C01", "C02", "C04", "C05", "C06", "C07", "C08", "C10", "C11", "C12", "C13", "C14", "C15", "C16", "C20"]
 }
 
 /// does `msg` mention `parts` in this order (each after the previous one)?
